@@ -8,6 +8,7 @@ import WhVerif.Lemmas.C06Window
 import WhVerif.Lemmas.C06NoRef
 import WhVerif.Lemmas.C06Enum
 import WhVerif.Lemmas.C06IndelWindow
+import WhVerif.Lemmas.C06IndelNoRef
 /-!
 # C06 — allele detection never assigns the wrong allele to an error-free read: theorems about the model
 
@@ -794,5 +795,115 @@ example : locate 3 0 0 0 ([(4, 2)] ++ [(0, 3)] ++ (2, 2) :: [(0, 3)]) = some (2,
 example : (iterateCigar [3] 0 0 [(4, 2), (0, 3), (2, 2), (0, 3)]).1 = [⟨0, 2, 0, 5⟩]
     ∧ (iterateCigar [3] 0 0 [(0, 3), (1, 2), (0, 2), (5, 1)]).1 = [⟨0, 1, 0, 3⟩] := by decide
 end NonVacuityIndel
+
+/-! ## `noref_unshiftable_indel_correct` — the no-reference detector on an isolated deletion / insertion -/
+
+/-- `noref_unshiftable_indel_correct` (repaired behaviour: `f13`, `f16` on; `f12`, `f14`, `f15` arbitrary).  One isolated
+variant `v` whose normalisation is the deletion `ref > ε` or the insertion `ε > alt` at `pos`; a read (any query
+qualities) whose CIGAR is `A ++ [(mop, m)] ++ …` with `A` arbitrary over the operators 0–8 (clips, skips, unrelated
+indels, …) ending before the anchor base, `mop` ∈ {M, =, X}, and
+* `h = 0`: the block `(mop, m)` contains the anchor base and the whole variant (for an insertion: the base on either
+  side), and — for a deletion — the read's bases there are REF;
+* `h = 1`, deletion: the block ends with the anchor base and is followed by the D of length `|ref|`;
+* `h = 1`, insertion: the block ends with the anchor base and is followed by the I of length `|alt|` whose query bases
+  are `alt`;
+`B` (what follows) arbitrary over the operators 0–8.  Then the detector raises no error and records exactly the carried
+allele `h` for the variant — quality: mean base quality of the matched REF bases of a deletion, else 30. -/
+theorem noref_unshiftable_indel_correct (fx : Fixes) (h13 : fx.f13 = true) (h16 : fx.f16 = true)
+    (v : Variant) (pos : Nat) (ref alt : Seq) (hnorm : normalize v = ⟨pos, ref, [alt]⟩)
+    (hindel : (alt = [] ∧ 0 < ref.length) ∨ (ref = [] ∧ 0 < alt.length))
+    (start : Nat) (A B : Cigar) (mop m : Nat) (cigar : Cigar) (query : Seq) (quals : Option (List Nat)) (h : Nat)
+    (hA : ∀ p ∈ A, p.1 ≤ 8) (hB : ∀ p ∈ B, p.1 ≤ 8) (hm : isMatch mop = true)
+    (hquals : ∀ l, quals = some l → l.length = query.length)
+    (hanchor : start + refLen A < pos)
+    (hshape :
+      (h = 0 ∧ cigar = A ++ (mop, m) :: B ∧ pos < start + refLen A + m ∧ pos + ref.length ≤ start + refLen A + m
+        ∧ slice query (qLen A + (pos - (start + refLen A))) ref.length = ref)
+      ∨ (h = 1 ∧ alt = [] ∧ cigar = A ++ (mop, m) :: (2, ref.length) :: B ∧ start + refLen A + m = pos)
+      ∨ (h = 1 ∧ ref = [] ∧ cigar = A ++ (mop, m) :: (1, alt.length) :: B ∧ start + refLen A + m = pos
+        ∧ slice query (qLen A + m) alt.length = alt)) :
+    detectNoRef fx [v] 0 start cigar query quals =
+      ([(0, h, indelQuality quals h ref (qLen A + (pos - (start + refLen A))))], none) := by
+  rw [detectNoRef_single fx v _ hnorm start (by simp only []; omega)]
+  have hcr : consumesRef mop = true := by simp [consumesRef, hm]
+  have hcq : consumesQuery mop = true := by simp [consumesQuery, hm]
+  rcases hshape with ⟨rfl, rfl, hlt, hcov, href⟩ | ⟨rfl, rfl, rfl, hend⟩ | ⟨rfl, rfl, rfl, hend, hins⟩
+  · -- REF
+    obtain ⟨an, hs⟩ := noRefGo_skip fx h16 query quals 0 ⟨pos, ref, [alt]⟩ A ((mop, m) :: B) hA false start 0 hanchor
+    rw [hs]
+    rcases hindel with ⟨rfl, hL⟩ | ⟨rfl, hL⟩
+    · rw [noRefGo_del_ref fx h13 query quals an (start + refLen A) (0 + qLen A) 0 pos ref mop m B hm hL (by omega) hcov
+        (by simpa using href) hquals hB]
+      simp [indelQuality, hL]
+    · rw [noRefGo_ins_ref fx query quals an (start + refLen A) (0 + qLen A) 0 pos alt mop m B hm hL hanchor hlt hB]
+      simp [indelQuality]
+  · -- ALT, deletion
+    have hL : 0 < ref.length := by
+      rcases hindel with ⟨_, hL⟩ | ⟨e, hL⟩
+      · exact hL
+      · simp at hL
+    obtain ⟨an, hs⟩ := noRefGo_skip fx h16 query quals 0 ⟨pos, ref, [[]]⟩ A ((mop, m) :: (2, ref.length) :: B) hA false
+      start 0 hanchor
+    obtain ⟨an2, hs2⟩ := noRefGo_step_skip fx h16 query quals an (start + refLen A) (0 + qLen A) 0 ⟨pos, ref, [[]]⟩ mop m
+      ((2, ref.length) :: B) (by have := isMatch_le8 mop hm; exact this) (by simp only [hcr, if_true]; omega)
+      (by intro e; subst e; simp [isMatch] at hm)
+    have e : start + refLen A + (if consumesRef mop = true then m else 0) = pos := by simp only [hcr, if_true]; exact hend
+    rw [hs, hs2, e, noRefGo_del_alt fx query quals an2 _ 0 pos ref B hL hB]
+    simp [indelQuality]
+  · -- ALT, insertion
+    have hL : 0 < alt.length := by
+      rcases hindel with ⟨e, hL⟩ | ⟨_, hL⟩
+      · subst e; simp at hL
+      · exact hL
+    obtain ⟨an, hs⟩ := noRefGo_skip fx h16 query quals 0 ⟨pos, [], [alt]⟩ A ((mop, m) :: (1, alt.length) :: B) hA false
+      start 0 hanchor
+    obtain ⟨an2, hs2⟩ := noRefGo_step_skip fx h16 query quals an (start + refLen A) (0 + qLen A) 0 ⟨pos, [], [alt]⟩ mop m
+      ((1, alt.length) :: B) (isMatch_le8 mop hm) (by simp only [hcr, if_true]; omega)
+      (by intro e; subst e; simp [isMatch] at hm)
+    have e : start + refLen A + (if consumesRef mop = true then m else 0) = pos := by simp only [hcr, if_true]; exact hend
+    rw [hs, hs2, e, noRefGo_ins_alt fx h16 query quals an2 _ 0 pos alt B hL (by simpa [hcq] using hins) hB]
+    simp [indelQuality]
+
+/-- "unshiftable": a VCF deletion `a·del > a` / insertion `a > a·ins` whose last deleted / inserted base differs from the
+anchor base `a` (so it cannot be moved to the left) is normalised to the position right after the anchor — the position
+at which `noref_unshiftable_indel_correct` expects the D / I. -/
+theorem normalize_unshiftable_indel (p : Nat) (a : Char) (s : Seq) (hne : s ≠ []) (hun : s.getLast? ≠ some a) :
+    normalize ⟨p, a :: s, [[a]]⟩ = ⟨p + 1, s, [[]]⟩ ∧ normalize ⟨p, [a], [a :: s]⟩ = ⟨p + 1, [], [s]⟩ :=
+  ⟨normalize_vcf_deletion p a s hne hun, normalize_vcf_insertion p a s hne hun⟩
+
+section NonVacuityNoRefIndel
+/-- deletion `ACT>A` at 2 (normalised `CT>ε` at 3), read `2S 3M 2D 3M` at 0 carrying it; qualities present -/
+example : detectNoRef Fixes.all [⟨2, ['A', 'C', 'T'], [['A']]⟩] 0 0 ([(4, 2)] ++ (0, 3) :: (2, ['C', 'T'].length) :: [(0, 3)])
+      ['T', 'T', 'G', 'G', 'A', 'G', 'T', 'T'] (some [9, 9, 20, 21, 22, 23, 24, 25])
+    = ([(0, 1, indelQuality (some [9, 9, 20, 21, 22, 23, 24, 25]) 1 ['C', 'T'] (qLen [(4, 2)] + (3 - (0 + refLen [(4, 2)]))))], none) :=
+  noref_unshiftable_indel_correct Fixes.all rfl rfl _ 3 ['C', 'T'] [] (by decide) (Or.inl ⟨rfl, by decide⟩) 0 [(4, 2)] [(0, 3)] 0 3 _ _ _ 1
+    (by decide) (by decide) rfl (by simp) (by decide) (Or.inr (Or.inl ⟨rfl, rfl, rfl, by decide⟩))
+
+/-- the same variant, a read carrying REF (`1I 7M` at 1): mean quality of the bases `C`, `T` -/
+example : detectNoRef Fixes.all [⟨2, ['A', 'C', 'T'], [['A']]⟩] 0 1 ([(1, 1)] ++ (7, 7) :: [])
+      ['T', 'G', 'A', 'C', 'T', 'G', 'T', 'T'] (some [9, 20, 21, 22, 25, 23, 24, 25])
+    = ([(0, 0, indelQuality (some [9, 20, 21, 22, 25, 23, 24, 25]) 0 ['C', 'T'] (qLen [(1, 1)] + (3 - (1 + refLen [(1, 1)]))))], none) :=
+  noref_unshiftable_indel_correct Fixes.all rfl rfl _ 3 ['C', 'T'] [] (by decide) (Or.inl ⟨rfl, by decide⟩) 1 [(1, 1)] [] 7 7 _ _ _ 0
+    (by decide) (by decide) rfl (by simp) (by decide) (Or.inl ⟨rfl, rfl, by decide, by decide, by decide⟩)
+example : indelQuality (some [9, 20, 21, 22, 25, 23, 24, 25]) 0 ['C', 'T'] (qLen [(1, 1)] + (3 - (1 + refLen [(1, 1)]))) = 23 := by
+  decide
+
+/-- insertion `A>ATT` at 2 (normalised `ε>TT` at 3): a read with the I (`3M 2I 2M 1H`), and a read matching through -/
+example : detectNoRef Fixes.all [⟨2, ['A'], [['A', 'T', 'T']]⟩] 0 0 ([] ++ (0, 3) :: (1, ['T', 'T'].length) :: [(0, 2), (5, 1)])
+      ['G', 'G', 'A', 'T', 'T', 'C', 'T'] none
+    = ([(0, 1, indelQuality none 1 [] (qLen [] + (3 - (0 + refLen []))))], none) :=
+  noref_unshiftable_indel_correct Fixes.all rfl rfl _ 3 [] ['T', 'T'] (by decide) (Or.inr ⟨rfl, by decide⟩) 0 [] [(0, 2), (5, 1)] 0 3 _ _
+    _ 1 (by decide) (by decide) rfl (by simp) (by decide) (Or.inr (Or.inr ⟨rfl, rfl, rfl, by decide, by decide⟩))
+
+example : detectNoRef Fixes.all [⟨2, ['A'], [['A', 'T', 'T']]⟩] 0 0 ([] ++ (0, 8) :: [])
+      ['G', 'G', 'A', 'C', 'T', 'G', 'T', 'T'] none
+    = ([(0, 0, indelQuality none 0 [] (qLen [] + (3 - (0 + refLen []))))], none) :=
+  noref_unshiftable_indel_correct Fixes.all rfl rfl _ 3 [] ['T', 'T'] (by decide) (Or.inr ⟨rfl, by decide⟩) 0 [] [] 0 8 _ _
+    _ 0 (by decide) (by decide) rfl (by simp) (by decide) (Or.inl ⟨rfl, rfl, by decide, by decide, by decide⟩)
+
+example : normalize ⟨2, 'A' :: ['C', 'T'], [['A']]⟩ = ⟨2 + 1, ['C', 'T'], [[]]⟩
+    ∧ normalize ⟨2, ['A'], ['A' :: ['C', 'T']]⟩ = ⟨2 + 1, [], [['C', 'T']]⟩ :=
+  normalize_unshiftable_indel 2 'A' ['C', 'T'] (by decide) (by decide)
+end NonVacuityNoRefIndel
 
 end WhVerif.Props.C06
